@@ -80,6 +80,21 @@ func init() {
 			f.Dense = r.Intn(3) == 0
 			t := genTree(r, f)
 			addGenerators(r, t)
+			if r.Intn(5) == 0 {
+				// annotation / label KEYS that are strings spelled like numbers (quoted in the input): the build may refuse them,
+				// it must not rename them
+				for _, g := range t.Res {
+					if g.Gen || r.Intn(3) != 0 {
+						continue
+					}
+					md, _ := g.Obj["metadata"].(Obj)
+					an, _ := md["annotations"].(Obj)
+					if an == nil {
+						continue
+					}
+					an[pickS(r, []string{"012", "0x1F", "1e3", "010", "8", "1_000", "0o17", "1.50"})] = "numeric-looking-key"
+				}
+			}
 			fs := filesys.MakeFsInMemory()
 			t.Write(fs, "/w")
 			out, err, pnc := safeBuild(func() (string, error) { return runBuild(fs, t.TopDir("/w"), nil) })
